@@ -679,7 +679,8 @@ class Inliner:
         lower = any(isinstance(n, (ast.Assign, ast.AnnAssign, ast.Return)) and isinstance(getattr(n, 'value', None), ast.IfExp) for n in ast.walk(func.node)) or any(
             isinstance(n, (ast.Expr, ast.Assign, ast.Return)) and isinstance(getattr(n, 'value', None), ast.Call) and any(
                 isinstance(x, ast.IfExp) for x in list(n.value.args) + [k.value for k in n.value.keywords]) for n in ast.walk(func.node))
-        takeover = any(isinstance(n, ast.Assign) and isinstance(n.value, ast.Constant) and n.value.value is None and len(n.targets) == 1 and isinstance(n.targets[0], ast.Attribute)
+        multi = Counter(n.id for n in ast.walk(func.node) if isinstance(n, ast.Name) and isinstance(n.ctx, ast.Store))
+        takeover = any(c_ >= 2 for c_ in multi.values()) or any(isinstance(n, ast.Assign) and isinstance(n.value, ast.Constant) and n.value.value is None and len(n.targets) == 1 and isinstance(n.targets[0], ast.Attribute)
                        for n in ast.walk(func.node)) or any(isinstance(n, ast.Assign) and len(n.targets) == 1 and isinstance(n.targets[0], ast.Tuple) and isinstance(n.value, ast.Tuple)
                                                             for n in ast.walk(func.node))
         aliases = _pure_aliases(func.node) or (_defer_clears(copy.deepcopy(func.node)) if takeover else set())
@@ -708,6 +709,9 @@ class Inliner:
                 collect(g)
         collect(tmp)
         func.module.all_funcs[:] = [g for g in func.module.all_funcs if id(g) not in scratch]
+        shadows = _shadow_locals(node)
+        if shadows:
+            self.log.append(f'{func.qualname}: local kept in step with an attribute read as that attribute ({", ".join(sorted(shadows))})')
         taken = _defer_clears(node)
         if taken:
             self.log.append(f'{func.qualname}: value taken out of an attribute before it is cleared, read as the attribute cleared afterwards ({", ".join(sorted(taken))})')
@@ -1138,3 +1142,97 @@ def _defer_clears(fn: ast.AST) -> Set[str]:
 
 def _text(e: ast.AST) -> str:
     return ' '.join(ast.unparse(e).split())
+
+
+def _shadow_locals(fn: ast.AST) -> Set[str]:
+    """A local that is kept IN STEP with an attribute of ``self``: every assignment to it is ``x = self._a`` -- or ``x = None`` inside ``if x is None:`` before anything
+    was stored into ``self._a`` there -- and whenever ``self._a`` is stored into, the next thing that happens to ``x`` is such a re-synchronisation.  Then ``x`` IS
+    ``self._a`` wherever it is read: the reads are rewritten (in place), the assignments to ``x`` dropped.  Straight-line / if code only (no loop around any of it)."""
+    if isinstance(fn, ast.Lambda):
+        return set()
+    done: Set[str] = set()
+    pos: Dict[int, int] = {}
+    in_loop: Set[int] = set()
+    parents: Dict[int, ast.AST] = {}
+
+    def number(nodes, parent, loop, k=[0]):
+        for n in nodes:
+            k[0] += 1
+            pos[id(n)] = k[0]
+            parents[id(n)] = parent
+            if loop:
+                in_loop.add(id(n))
+            number(ast.iter_child_nodes(n), n, loop or isinstance(n, (ast.For, ast.While, ast.AsyncFor)), k)
+    number(fn.body, fn, False)
+    stores: Dict[str, List[ast.Assign]] = {}
+    for n in ast.walk(fn):
+        if isinstance(n, ast.Assign) and len(n.targets) == 1 and isinstance(n.targets[0], ast.Name):
+            stores.setdefault(n.targets[0].id, []).append(n)
+    params = {a.arg for a in ast.walk(fn.args) if isinstance(a, ast.arg)} if hasattr(fn, 'args') else set()
+    for name, asg in stores.items():
+        if len(asg) < 2 or name in params:
+            continue
+        other_stores = [n for n in ast.walk(fn) if isinstance(n, ast.Name) and n.id == name and isinstance(n.ctx, (ast.Store, ast.Del)) and not any(n is a.targets[0] for a in asg)]
+        if other_stores or any(id(a) in in_loop for a in asg):
+            continue
+        attrs = {_text(a.value) for a in asg if isinstance(a.value, ast.Attribute) and isinstance(a.value.value, ast.Name) and a.value.value.id == 'self'}
+        if len(attrs) != 1:
+            continue
+        attr = next(iter(attrs))
+        ok = True
+        for a in asg:
+            if _text(a.value) == attr:
+                continue
+            if not (isinstance(a.value, ast.Constant) and a.value.value is None):
+                ok = False
+                break
+            # ``x = None`` only where x (== the attribute) is known to be None and the attribute was not stored into since
+            p_ = parents.get(id(a))
+            guard = None
+            while p_ is not None and p_ is not fn:
+                if isinstance(p_, ast.If) and _text(p_.test) in (f'{name} is None', f'{attr} is None') and any(a is x for b in p_.body for x in ast.walk(b)):
+                    guard = p_
+                    break
+                p_ = parents.get(id(p_))
+            if guard is None or any(isinstance(x, ast.Attribute) and _text(x) == attr and isinstance(x.ctx, (ast.Store, ast.Del)) and pos[id(guard)] < pos[id(x)] < pos[id(a)]
+                                    for x in ast.walk(guard)):
+                ok = False
+                break
+        if not ok:
+            continue
+        # after every store into the attribute, the next access of the local (in source order) is a re-synchronising assignment -- or there is none
+        loads = sorted(pos[id(n)] for n in ast.walk(fn) if isinstance(n, ast.Name) and n.id == name and isinstance(n.ctx, ast.Load))
+        syncs = sorted(pos[id(a)] for a in asg)
+        for x in ast.walk(fn):
+            if isinstance(x, ast.Attribute) and _text(x) == attr and isinstance(x.ctx, (ast.Store, ast.Del)):
+                if id(x) in in_loop:
+                    ok = False
+                    break
+                later_loads = [p for p in loads if p > pos[id(x)]]
+                later_syncs = [p for p in syncs if p > pos[id(x)]]
+                if later_loads and not (later_syncs and later_syncs[0] < later_loads[0]):
+                    ok = False
+                    break
+        if not ok or not loads or min(syncs) > loads[0]:
+            continue
+
+        class T(ast.NodeTransformer):
+            def visit_Name(self, node):
+                if node.id == name and isinstance(node.ctx, ast.Load):
+                    return ast.copy_location(ast.parse(attr, mode='eval').body, node)
+                return node
+
+            def visit_Assign(self, node):
+                if any(node is a for a in asg):
+                    return ast.copy_location(ast.Pass(), node)
+                return self.generic_visit(node)
+
+            def visit_FunctionDef(self, node):
+                return node
+            visit_AsyncFunctionDef = visit_FunctionDef
+            visit_Lambda = visit_FunctionDef
+        fn.body = [T().visit(st) for st in fn.body]
+        done.add(name)
+    if done:
+        ast.fix_missing_locations(fn)
+    return done
